@@ -49,6 +49,7 @@ def run(ctx):
     progs = ROUTES + progs + ROUTES[::-1]
     # lone surrogates differ between the backends' quoters in one documented class (F1b): not a history matter
     progs = [p for p in progs if "\\ud" not in repr(p)]
+    suites.touch_invariance(ctx, "C08-used-intermediates", progs, 500 if ctx.quick else 8000)
     chunk = 400
     chunks = [progs[i:i + chunk] for i in range(0, len(progs), chunk)]
     lines_cold = [core.call_line("history_run", c, 2, False) for c in chunks]
